@@ -8,6 +8,8 @@ from sim.rng import stream
 from ._wcommon import (ASSUMPTIONS, COMPONENTS_REAL, COMPONENTS_STUB, Hist, Violation, default_nontrivial,  # noqa: F401
                        simplifications, simulate)
 
+from ._wcommon import abstract_states  # noqa: F401,E402
+
 ID = "C12"
 RUNS = {"quick": 8000, "thorough": 250000}
 BUDGET_S = {"quick": 60, "thorough": 900}
@@ -62,6 +64,22 @@ def gen(rs: int, tier: str, index: int) -> dict:
                 m["dep_fail"] = r.choice(ts["deps"])["id"]
             if m.get("timeout") is not None and ts.get("sync"):
                 m.pop("timeout")
+    if index % 5 == 4:
+        # second transport: the real InMemoryBroker, whose kick() calls Receiver.callback directly and forwards the propagate switch
+        s["config"]["transport"] = "inmemory"
+        s["config"]["await_inplace"] = r.random() < 0.4
+        s["config"]["workers"] = 1
+        s["config"]["ackable"] = False
+        s["config"]["middlewares"] = [mw for mw in s["config"]["middlewares"] if mw.get("retry") is None]
+        s["ops"] = []
+        for m in s["messages"]:
+            m.pop("net", None)
+            m["kind"] = "valid"
+            m.pop("raw_b64", None)
+            m.pop("task_name", None)
+            if "task" not in m:
+                m["task"] = 0
+                m["attempts"] = [{"steps": [0], "out": ["ret"]}]
     return s
 
 
@@ -135,7 +153,7 @@ def probes(script: dict, run: Any) -> Dict[str, int]:
     h = Hist(run)
     res = {"teardown_with_exception": 0, "teardown_after_timeout": 0, "dependency_failed_midway": int(bool(h.kind("dep_fail"))),
            "uncached_graph": int(any(has_uncached(t) for t in script["tasks"])), "propagate_off": int(not script["config"].get("propagate", True)),
-           "three_or_more_teardowns": 0, "async_teardown_suspended": 0}
+           "three_or_more_teardowns": 0, "async_teardown_suspended": 0, "inmemory_broker_transport": int(script["config"].get("transport") == "inmemory")}
     per: Dict[Any, int] = {}
     for e in h.kind("dep_close"):
         per[e[4]] = per.get(e[4], 0) + 1
